@@ -66,8 +66,13 @@ void bn_mod_inv(bn_t c, const bn_t a, const bn_t b) {
 
 void bn_mod_inv_sim(bn_t *c, const bn_t *a, const bn_t b, int n) {
 	int i;
-	bn_t u, *t = RLC_ALLOCA(bn_t, n);
+	bn_t u, *t;
 
+	if (n <= 0) {
+		return;
+	}
+
+	t = RLC_ALLOCA(bn_t, n);
 	bn_null(u);
 
 	RLC_TRY {
